@@ -223,52 +223,21 @@ Proof.
   apply shutdown_regs_fine; auto.
 Qed.
 
-(* ---------- clean-up over a tree: never more than what the state records ---------- *)
-
-Definition cleanup_sub (f : oracle) (a : app) : Prop :=
-  forall x, entered (fst (cleanup_app f a x)) = [] /\ subseq (exited (fst (cleanup_app f a x))) (xt_cleanup_order x).
+(* ---------- clean-up over a tree ---------- *)
 
 Lemma cleanup_app_unfold f regs x :
   cleanup_app f (App regs) x =
   let '(l0, r0) := ctx_cleanup f (xt_exits x) in
-  match r0 with
-  | Some e => (l0, Some e)
-  | None => let '(l1, r1) := cleanup_regs (cleanup_app f) f regs (xt_subs x) in (l0 ++ l1, r1)
-  end.
+  let '(l1, es) := cleanup_regs (cleanup_app f) f regs (xt_subs x) in
+  (l0 ++ l1, collect (opt_list r0 ++ es)).
 Proof. reflexivity. Qed.
 
-Lemma cleanup_regs_sub f rs : sub_all (cleanup_sub f) rs ->
-  forall xs, entered (fst (cleanup_regs (cleanup_app f) f rs xs)) = [] /\
-             subseq (exited (fst (cleanup_regs (cleanup_app f) f rs xs))) (flat_map xt_cleanup_order xs).
-Proof.
-  induction 1 as [|r0 t Hr Ht IH]; intros xs; simpl.
-  - split; auto. apply subseq_nil_l.
-  - destruct r0 as [c|u|u|u|b]; auto.
-    + destruct (f (SCleanup u)); simpl.
-      * split; auto. apply subseq_nil_l.
-      * destruct (IH xs) as (I1 & I2). destruct (cleanup_regs (cleanup_app f) f t xs) as [l r]. simpl in *. auto.
-    + destruct (Hr (hd xt_empty xs)) as (B1 & B2).
-      destruct (cleanup_app f b (hd xt_empty xs)) as [lb rb]. simpl in *.
-      assert (Hhd : subseq (exited lb) (flat_map xt_cleanup_order xs)).
-      { destruct xs as [|y ys]; simpl in *; auto. apply subseq_app_l; auto. }
-      destruct rb; simpl; auto.
-      destruct (IH (tl xs)) as (I1 & I2). destruct (cleanup_regs (cleanup_app f) f t (tl xs)) as [l r]. simpl in *.
-      rewrite entered_app, exited_app, B1, I1. split; auto.
-      destruct xs as [|y ys]; simpl in *.
-      * apply subseq_nil_r in B2. apply subseq_nil_r in I2. rewrite B2, I2. constructor.
-      * apply subseq_app; auto.
-Qed.
-
-Lemma cleanup_app_sub f : forall a, cleanup_sub f a.
-Proof.
-  apply app_ind'. intros regs H [ex xs]. rewrite cleanup_app_unfold. simpl xt_exits. simpl xt_subs.
-  destruct (ctx_cleanup f ex) as [l0 r0] eqn:E0. apply ctx_cleanup_spec in E0 as (E1 & E2 & _).
-  simpl xt_cleanup_order. destruct r0; simpl.
-  - rewrite E1, E2. split; auto. apply subseq_app_l. apply subseq_refl.
-  - destruct (cleanup_regs_sub f regs H xs) as (I1 & I2).
-    destruct (cleanup_regs (cleanup_app f) f regs xs) as [l1 r1]. simpl in *.
-    rewrite entered_app, exited_app, E1, E2, I1. split; auto. apply subseq_app; auto. apply subseq_refl.
-Qed.
+Lemma started_cleanup_unfold f regs x :
+  started_cleanup f (App regs) x =
+  let '(l0, r0) := ctx_cleanup f (xt_exits x) in
+  let '(l1, es) := started_regs (started_cleanup f) regs (xt_subs x) in
+  (l0 ++ l1, collect (opt_list r0 ++ es)).
+Proof. reflexivity. Qed.
 
 (* clean-up order and start-up order list the same contexts *)
 Lemma xt_orders_perm : forall x, Permutation (xt_cleanup_order x) (xt_started x).
@@ -284,6 +253,121 @@ Proof.
   - rewrite IHPermutation; auto.
   - destruct (N.eq_dec y c), (N.eq_dec x c); auto.
   - rewrite IHPermutation1; auto.
+Qed.
+
+(* (1) the on_cleanup signal after a SUCCESSFUL start-up tears down exactly what the state records,
+       whatever raises: every receiver runs *)
+Definition cleanup_exact (f : oracle) (a : app) : Prop :=
+  forall l x, startup_app f a = (l, x, None) ->
+  entered (fst (cleanup_app f a x)) = [] /\ exited (fst (cleanup_app f a x)) = xt_cleanup_order x.
+
+Lemma cleanup_regs_exact f rs : sub_all (cleanup_exact f) rs ->
+  forall l xs, startup_regs (startup_app f) f rs = (l, xs, None) ->
+  entered (fst (cleanup_regs (cleanup_app f) f rs xs)) = [] /\
+  exited (fst (cleanup_regs (cleanup_app f) f rs xs)) = flat_map xt_cleanup_order xs.
+Proof.
+  induction 1 as [|r0 t Hr Ht IH]; intros l xs; simpl.
+  - intros [= <- <-]. auto.
+  - destruct r0 as [c|u|u|u|b]; try apply IH.
+    + destruct (f (SStartup u)); [discriminate|].
+      destruct (startup_regs (startup_app f) f t) as [[l' xs'] r'] eqn:E. intros [= <- <- ->]. apply (IH _ _ eq_refl).
+    + intros E. destruct (IH _ _ E) as (I1 & I2).
+      destruct (cleanup_regs (cleanup_app f) f t xs) as [l' es']. cbn [fst] in *.
+      destruct (f (SCleanup u)); cbn [fst]; auto.
+    + destruct (startup_app f b) as [[lb xb] rb] eqn:Eb. destruct rb; [discriminate|].
+      destruct (startup_regs (startup_app f) f t) as [[l' xs'] r'] eqn:E. intros [= <- <- ->].
+      cbn [hd tl]. destruct (Hr _ _ Eb) as (B1 & B2). destruct (IH _ _ eq_refl) as (I1 & I2).
+      destruct (cleanup_app f b xb) as [lb' rb']. cbn [fst] in B1, B2.
+      destruct (cleanup_regs (cleanup_app f) f t xs') as [l'' es'']. cbn [fst] in *.
+      rewrite entered_app, exited_app, B1, B2, I1, I2. auto.
+Qed.
+
+Lemma cleanup_app_exact f : forall a, cleanup_exact f a.
+Proof.
+  apply app_ind'. intros regs H l x. rewrite startup_app_unfold.
+  destruct (ctx_startup f (ctxs_of regs) []) as [[l0 ex] r0] eqn:E0.
+  destruct r0; [discriminate|].
+  destruct (startup_regs (startup_app f) f regs) as [[l1 xs] r1] eqn:Er. intros [= <- <- ->].
+  rewrite cleanup_app_unfold. cbn [xt_exits xt_subs].
+  destruct (ctx_cleanup f ex) as [lc rc] eqn:Ec. apply ctx_cleanup_spec in Ec as (C1 & C2 & _).
+  destruct (cleanup_regs_exact f regs H _ _ Er) as (I1 & I2).
+  destruct (cleanup_regs (cleanup_app f) f regs xs) as [l3 es3]. cbn [fst] in *.
+  rewrite entered_app, exited_app, C1, C2, I1, I2. auto.
+Qed.
+
+(* (2) after a FAILED start-up: the cleanup contexts of the whole tree, exactly what the state records *)
+Definition started_empty (f : oracle) (a : app) : Prop :=
+  entered (fst (started_cleanup f a xt_empty)) = [] /\ exited (fst (started_cleanup f a xt_empty)) = [].
+
+Lemma started_regs_empty f rs : sub_all (started_empty f) rs ->
+  entered (fst (started_regs (started_cleanup f) rs [])) = [] /\ exited (fst (started_regs (started_cleanup f) rs [])) = [].
+Proof.
+  induction 1 as [|r0 t Hr Ht IH]; simpl; auto.
+  destruct r0 as [c|u|u|u|b]; auto.
+  cbn [hd tl]. destruct Hr as (B1 & B2). destruct IH as (I1 & I2).
+  destruct (started_cleanup f b xt_empty) as [lb rb]. destruct (started_regs (started_cleanup f) t []) as [l es].
+  cbn [fst] in *. rewrite entered_app, exited_app, B1, B2, I1, I2. auto.
+Qed.
+
+Lemma started_cleanup_empty f : forall a, started_empty f a.
+Proof.
+  apply app_ind'. intros regs H. unfold started_empty. rewrite started_cleanup_unfold. cbn [xt_empty xt_exits xt_subs].
+  destruct (ctx_cleanup f []) as [lc rc] eqn:Ec. apply ctx_cleanup_spec in Ec as (C1 & C2 & _).
+  destruct (started_regs_empty f regs H) as (I1 & I2).
+  destruct (started_regs (started_cleanup f) regs []) as [l es]. cbn [fst] in *.
+  rewrite entered_app, exited_app, C1, C2, I1, I2. auto.
+Qed.
+
+Definition started_exact (f : oracle) (a : app) : Prop :=
+  forall l x r, startup_app f a = (l, x, r) ->
+  entered (fst (started_cleanup f a x)) = [] /\ exited (fst (started_cleanup f a x)) = xt_cleanup_order x.
+
+Lemma sub_all_weaken (P Q : app -> Prop) rs : (forall a, Q a) -> sub_all P rs -> sub_all Q rs.
+Proof. intros HQ. induction 1 as [|r t Hr Ht IH]; constructor; auto. destruct r; auto. Qed.
+
+Lemma started_regs_exact f rs : sub_all (started_exact f) rs ->
+  forall l xs r, startup_regs (startup_app f) f rs = (l, xs, r) ->
+  entered (fst (started_regs (started_cleanup f) rs xs)) = [] /\
+  exited (fst (started_regs (started_cleanup f) rs xs)) = flat_map xt_cleanup_order xs.
+Proof.
+  induction 1 as [|r0 t Hr Ht IH]; intros l xs r; simpl.
+  - intros [= <- <- <-]. auto.
+  - destruct r0 as [c|u|u|u|b]; try apply IH.
+    + destruct (f (SStartup u)).
+      * intros [= <- <- <-]. apply started_regs_empty. eapply sub_all_weaken; [apply started_cleanup_empty | exact Ht].
+      * destruct (startup_regs (startup_app f) f t) as [[l' xs'] r'] eqn:E. intros [= <- <- <-]. apply (IH _ _ _ eq_refl).
+    + destruct (startup_app f b) as [[lb xb] rb] eqn:Eb. destruct (Hr _ _ _ Eb) as (B1 & B2).
+      destruct rb.
+      * intros [= <- <- <-]. cbn [hd tl].
+        assert (He : sub_all (started_empty f) t) by (eapply sub_all_weaken; [apply started_cleanup_empty | exact Ht]).
+        destruct (started_regs_empty f t He) as (I1 & I2).
+        destruct (started_cleanup f b xb) as [lb' rb']. destruct (started_regs (started_cleanup f) t []) as [l' es'].
+        cbn [fst] in *. rewrite entered_app, exited_app, B1, B2, I1, I2. simpl. rewrite !app_nil_r. auto.
+      * destruct (startup_regs (startup_app f) f t) as [[l' xs'] r'] eqn:E. intros [= <- <- <-]. cbn [hd tl].
+        destruct (IH _ _ _ eq_refl) as (I1 & I2).
+        destruct (started_cleanup f b xb) as [lb' rb']. destruct (started_regs (started_cleanup f) t xs') as [l'' es''].
+        cbn [fst] in *. rewrite entered_app, exited_app, B1, B2, I1, I2. auto.
+Qed.
+
+Lemma started_cleanup_exact f : forall a, started_exact f a.
+Proof.
+  apply app_ind'. intros regs H l x r. rewrite startup_app_unfold.
+  destruct (ctx_startup f (ctxs_of regs) []) as [[l0 ex] r0] eqn:E0.
+  assert (Hctx : forall xs, entered (fst (started_cleanup f (App regs) (XT ex xs))) =
+                            entered (fst (started_regs (started_cleanup f) regs xs)) /\
+                            exited (fst (started_cleanup f (App regs) (XT ex xs))) =
+                            rev ex ++ exited (fst (started_regs (started_cleanup f) regs xs))).
+  { intros xs. rewrite started_cleanup_unfold. cbn [xt_exits xt_subs].
+    destruct (ctx_cleanup f ex) as [lc rc] eqn:Ec. apply ctx_cleanup_spec in Ec as (C1 & C2 & _).
+    destruct (started_regs (started_cleanup f) regs xs) as [l3 es3]. cbn [fst].
+    rewrite entered_app, exited_app, C1, C2. auto. }
+  destruct r0.
+  - intros [= <- <- <-]. destruct (Hctx []) as (-> & ->).
+    assert (He : sub_all (started_empty f) regs) by (eapply sub_all_weaken; [apply started_cleanup_empty | exact H]).
+    destruct (started_regs_empty f regs He) as (I1 & I2). rewrite I1, I2. simpl. auto.
+  - destruct (startup_regs (startup_app f) f regs) as [[l1 xs] r1] eqn:Er. intros [= <- <- <-].
+    destruct (Hctx xs) as (-> & ->). destruct (started_regs_exact f regs H _ _ _ Er) as (I1 & I2).
+    rewrite I1, I2. simpl. auto.
 Qed.
 
 (* ---------- BaseRunner.cleanup() for the phase sequence of the unchanged tree ---------- *)
@@ -303,39 +387,28 @@ Lemma runner_cleanup_unfold f a x ok :
     let '(l2, r2) := shutdown_app f a in
     let '(l3, r3) := cleanup_app f a x in
     (EPre :: l2 ++ ESrv :: l3, match r3 with Some e => Some e | None => r2 end)
-  else ctx_cleanup f (xt_exits x).
+  else started_cleanup f a x.
 Proof.
   unfold runner_cleanup, runner_cleanup_seq. cbn [run_phases].
   rewrite phase_run_1, phase_run_2, phase_run_3, phase_run_4. unfold app_cleanup, runner_cleanup_finally.
   destruct ok.
   - destruct (shutdown_app f a) as [l2 r2]. destruct (cleanup_app f a x) as [l3 r3].
     destruct r2, r3; cbn; rewrite ?app_nil_r; auto.
-  - cbn. destruct (ctx_cleanup f (xt_exits x)) as [l r]. destruct r; cbn; rewrite ?app_nil_r; auto.
+  - cbn. destruct (started_cleanup f a x) as [l r]. destruct r; cbn; rewrite ?app_nil_r; auto.
 Qed.
 
-Lemma xt_exits_sub x : subseq (rev (xt_exits x)) (xt_cleanup_order x).
-Proof. destruct x as [e s]. simpl. apply subseq_app_l. apply subseq_refl. Qed.
-
-Lemma runner_cleanup_sub f a x ok :
-  entered (fst (runner_cleanup f a x ok)) = [] /\
-  subseq (exited (fst (runner_cleanup f a x ok))) (xt_cleanup_order x).
+(* whatever start-up did, the clean-up tears down exactly the recorded contexts *)
+Lemma runner_cleanup_exact f a l1 x r1 :
+  startup_app f a = (l1, x, r1) ->
+  entered (fst (runner_cleanup f a x (is_none r1))) = [] /\
+  exited (fst (runner_cleanup f a x (is_none r1))) = xt_cleanup_order x.
 Proof.
-  rewrite runner_cleanup_unfold. destruct ok.
-  - destruct (shutdown_app_quiet f a) as (Q1 & Q2). destruct (shutdown_app f a) as [l2 r2]. simpl in Q1, Q2.
-    destruct (cleanup_app_sub f a x) as (C1 & C2). destruct (cleanup_app f a x) as [l3 r3]. simpl in *.
-    rewrite entered_app, exited_app. simpl. rewrite Q1, Q2, C1. auto.
-  - destruct (ctx_cleanup f (xt_exits x)) as [l r] eqn:E. apply ctx_cleanup_spec in E as (E1 & E2 & _). simpl.
-    rewrite E1, E2. split; auto. apply xt_exits_sub.
-Qed.
-
-(* exits contributed by the clean-up after a successful set-up: exactly those of the on_cleanup signal *)
-Lemma runner_cleanup_ok_exited f a x :
-  exited (fst (runner_cleanup f a x true)) = exited (fst (cleanup_app f a x)).
-Proof.
-  rewrite runner_cleanup_unfold.
-  destruct (shutdown_app_quiet f a) as (_ & Q2). destruct (shutdown_app f a) as [l2 r2]. cbn [fst] in Q2.
-  destruct (cleanup_app f a x) as [l3 r3]. cbn [fst].
-  change (EPre :: l2 ++ ESrv :: l3) with ([EPre] ++ l2 ++ [ESrv] ++ l3). rewrite !exited_app, Q2. reflexivity.
+  intros E. rewrite runner_cleanup_unfold. destruct r1 as [e|]; cbn [is_none].
+  - apply (started_cleanup_exact f a _ _ _ E).
+  - destruct (shutdown_app_quiet f a) as (Q1 & Q2). destruct (shutdown_app f a) as [l2 r2]. cbn [fst] in Q1, Q2.
+    destruct (cleanup_app_exact f a _ _ E) as (C1 & C2). destruct (cleanup_app f a x) as [l3 r3]. cbn [fst] in *.
+    change (EPre :: l2 ++ ESrv :: l3) with ([EPre] ++ l2 ++ [ESrv] ++ l3).
+    rewrite !entered_app, !exited_app, Q1, Q2, C1, C2. auto.
 Qed.
 
 (* ---------- the two entry points ---------- *)
@@ -348,46 +421,43 @@ Proof.
   - destruct (site_phase f) as [ls rs]. destruct (runner_cleanup f a x true) as [l2 r2]. reflexivity.
 Qed.
 
-(* the log of a run, split into what start-up and what clean-up contributed *)
-Lemma via_apprunner_parts f a l1 x r1 :
+(* THE PROPERTY, all trees, all failure choices: what is torn down is exactly what started, per application in
+   reverse order (root first, then the sub-applications in registration order) *)
+Lemma exact f a l1 x r1 :
   startup_app f a = (l1, x, r1) ->
-  entered (via_apprunner f a) = entered l1 /\
-  exited (via_apprunner f a) = exited (fst (runner_cleanup f a x (is_none r1))).
+  entered (via_apprunner f a) = xt_started x /\
+  exited (via_apprunner f a) = xt_cleanup_order x /\
+  Permutation (xt_cleanup_order x) (xt_started x).
 Proof.
   intros E. unfold via_apprunner. rewrite E.
   destruct (startup_app_spec f a _ _ _ E) as (S1 & S2).
-  destruct (runner_cleanup_sub f a x (is_none r1)) as (R1 & _).
-  destruct (runner_cleanup f a x (is_none r1)) as [l2 r2]. simpl in *.
+  destruct (runner_cleanup_exact f a _ _ _ E) as (R1 & R2).
+  destruct (runner_cleanup f a x (is_none r1)) as [l2 r2]. cbn [fst] in *.
   assert (Hs1 : entered (match r1 with None => fst (site_phase f) | Some _ => [] end) = []).
   { destruct r1; auto. apply entered_site. }
   assert (Hs2 : exited (match r1 with None => fst (site_phase f) | Some _ => [] end) = []).
   { destruct r1; auto. apply exited_site. }
   rewrite !entered_app, !exited_app, entered_raised_setup, exited_raised_setup,
-    entered_raised_cleanup, exited_raised_cleanup, Hs1, Hs2, R1, S2. simpl. rewrite !app_nil_r. auto.
+    entered_raised_cleanup, exited_raised_cleanup, Hs1, Hs2, R1, R2, S1, S2. simpl. rewrite !app_nil_r.
+  repeat split; auto. apply xt_orders_perm.
 Qed.
 
-(* SAFETY, all trees, all failure choices: clean-up code runs at most as often as start-up code completed *)
-Lemma only_if_started_apprunner f a :
-  exists order, Permutation order (entered (via_apprunner f a)) /\ subseq (exited (via_apprunner f a)) order.
+Lemma iff_started f a :
+  cleanup_iff_started (via_apprunner f a) /\ cleanup_iff_started (fst (via_run_app f a)).
 Proof.
-  destruct (startup_app f a) as [[l1 x] r1] eqn:E.
-  destruct (via_apprunner_parts f a _ _ _ E) as (P1 & P2).
-  destruct (startup_app_spec f a _ _ _ E) as (S1 & _).
-  exists (xt_cleanup_order x). rewrite P1, P2, S1. split.
-  - apply xt_orders_perm.
-  - apply runner_cleanup_sub.
+  rewrite entry_points_agree. destruct (startup_app f a) as [[l1 x] r1] eqn:E.
+  destruct (exact f a _ _ _ E) as (P1 & P2 & P3).
+  assert (H : cleanup_iff_started (via_apprunner f a)).
+  { intros c. rewrite P1, P2. apply perm_count; auto. }
+  auto.
 Qed.
 
 Lemma only_if_started f a c :
   (count_occ N.eq_dec (exited (via_apprunner f a)) c <= count_occ N.eq_dec (entered (via_apprunner f a)) c)%nat /\
   (count_occ N.eq_dec (exited (fst (via_run_app f a))) c <= count_occ N.eq_dec (entered (fst (via_run_app f a))) c)%nat.
-Proof.
-  rewrite entry_points_agree.
-  destruct (only_if_started_apprunner f a) as (order & Hp & Hs).
-  assert (H := subseq_count _ _ Hs c). rewrite (perm_count _ _ Hp c) in H. auto.
-Qed.
+Proof. destruct (iff_started f a) as (H1 & H2). rewrite (H1 c), (H2 c). auto. Qed.
 
-(* ---------- flat applications (no sub-application) ---------- *)
+(* ---------- flat applications (no sub-application): global reverse order ---------- *)
 
 Definition flat_regs (rs : list reg) : Prop := Forall (fun r => match r with RSub _ => False | _ => True end) rs.
 
@@ -407,114 +477,19 @@ Proof.
     + destruct (startup_regs rec f t) as [[l' xs'] r'] eqn:E. intros [= <- <- <-]. destruct (IH _ _ _ eq_refl) as (? & ? & ?). simpl. auto.
 Qed.
 
-Lemma cleanup_regs_flat rec f rs : flat_regs rs ->
-  forall xs, entered (fst (cleanup_regs rec f rs xs)) = [] /\ exited (fst (cleanup_regs rec f rs xs)) = [].
-Proof.
-  induction 1 as [|r0 t Hr Ht IH]; intros xs; simpl; auto.
-  destruct r0 as [c|u|u|u|b]; auto; try contradiction.
-  destruct (f (SCleanup u)); simpl; auto.
-  destruct (IH xs). destruct (cleanup_regs rec f t xs). simpl in *. auto.
-Qed.
-
-Lemma shutdown_regs_flat rec f rs : flat_regs rs -> no_shutdown_failure f ->
-  snd (shutdown_regs rec f rs) = None.
-Proof.
-  intros H Hf. induction H as [|r0 t Hr Ht IH]; simpl; auto.
-  destruct r0 as [c|u|u|u|b]; auto; try contradiction.
-  rewrite Hf. destruct (shutdown_regs rec f t). simpl in *. auto.
-Qed.
-
-(* LIVENESS for flat applications: EVERY failure choice *)
 Lemma flat_exact f a : flat a = true ->
   exited (via_apprunner f a) = rev (entered (via_apprunner f a)).
 Proof.
   destruct a as [regs]. intros Hflat. apply flat_regs_iff in Hflat.
   destruct (startup_app f (App regs)) as [[l1 x] r1] eqn:E.
-  destruct (via_apprunner_parts f _ _ _ _ E) as (P1 & P2). rewrite P1, P2. clear P1 P2.
+  destruct (exact f _ _ _ _ E) as (P1 & P2 & _). rewrite P1, P2.
   rewrite startup_app_unfold in E.
   destruct (ctx_startup f (ctxs_of regs) []) as [[l0 ex] r0] eqn:E0.
-  apply ctx_startup_spec in E0 as (E1 & E2 & _). simpl in E1. subst ex.
   destruct r0.
-  - injection E as <- <- <-. cbn [is_none]. rewrite runner_cleanup_unfold. cbn [xt_exits].
-    destruct (ctx_cleanup f (entered l0)) as [l r] eqn:Ec. apply ctx_cleanup_spec in Ec as (C1 & _). cbn [fst]. auto.
+  - injection E as <- <- <-. simpl. rewrite !app_nil_r. reflexivity.
   - destruct (startup_regs (startup_app f) f regs) as [[l1' xs] r1'] eqn:Er.
-    apply startup_regs_flat in Er as (-> & F1 & F2); auto.
-    injection E as <- <- <-. rewrite entered_app, F1, app_nil_r.
-    destruct r1'; cbn [is_none].
-    + rewrite runner_cleanup_unfold. cbn [xt_exits].
-      destruct (ctx_cleanup f (entered l0)) as [l r] eqn:Ec. apply ctx_cleanup_spec in Ec as (C1 & _). cbn [fst]. auto.
-    + rewrite runner_cleanup_ok_exited. rewrite cleanup_app_unfold. cbn [xt_exits xt_subs].
-      destruct (ctx_cleanup f (entered l0)) as [l r] eqn:Ec. apply ctx_cleanup_spec in Ec as (C1 & C2 & _).
-      destruct r; cbn [fst]; auto.
-      destruct (cleanup_regs_flat (cleanup_app f) f regs Hflat []) as (G1 & G2).
-      destruct (cleanup_regs (cleanup_app f) f regs []) as [l3 r3]. cbn [fst] in *.
-      rewrite exited_app, C1, G2, app_nil_r. reflexivity.
-Qed.
-
-(* ---------- trees: liveness when nothing fails after a successful start-up ---------- *)
-
-Definition cleanup_full (f : oracle) (a : app) : Prop :=
-  forall l x, startup_app f a = (l, x, None) ->
-  snd (cleanup_app f a x) = None /\ exited (fst (cleanup_app f a x)) = xt_cleanup_order x.
-
-Lemma cleanup_regs_full f rs : no_teardown_failure f -> sub_all (cleanup_full f) rs ->
-  forall l xs, startup_regs (startup_app f) f rs = (l, xs, None) ->
-  snd (cleanup_regs (cleanup_app f) f rs xs) = None /\
-  exited (fst (cleanup_regs (cleanup_app f) f rs xs)) = flat_map xt_cleanup_order xs.
-Proof.
-  intros [Hx Hc]. induction 1 as [|r0 t Hr Ht IH]; intros l xs; simpl.
-  - intros [= <- <-]. auto.
-  - destruct r0 as [c|u|u|u|b]; try apply IH.
-    + destruct (f (SStartup u)); [discriminate|].
-      destruct (startup_regs (startup_app f) f t) as [[l' xs'] r'] eqn:E. intros [= <- <- ->]. apply (IH _ _ eq_refl).
-    + rewrite Hc. intros E. destruct (IH _ _ E) as (I1 & I2).
-      destruct (cleanup_regs (cleanup_app f) f t xs) as [l' r']. simpl in *. auto.
-    + destruct (startup_app f b) as [[lb xb] rb] eqn:Eb. destruct rb; [discriminate|].
-      destruct (startup_regs (startup_app f) f t) as [[l' xs'] r'] eqn:E. intros [= <- <- ->].
-      simpl hd. simpl tl. destruct (Hr _ _ Eb) as (B1 & B2). destruct (IH _ _ eq_refl) as (I1 & I2).
-      destruct (cleanup_app f b xb) as [lb' rb']. simpl in B1, B2. subst rb'.
-      destruct (cleanup_regs (cleanup_app f) f t xs') as [l'' r'']. simpl in *.
-      rewrite exited_app, B2, I2. auto.
-Qed.
-
-Lemma cleanup_app_full f : no_teardown_failure f -> forall a, cleanup_full f a.
-Proof.
-  intros Hf. apply app_ind'. intros regs H l x. rewrite startup_app_unfold.
-  destruct (ctx_startup f (ctxs_of regs) []) as [[l0 ex] r0] eqn:E0.
-  destruct r0; [discriminate|].
-  destruct (startup_regs (startup_app f) f regs) as [[l1 xs] r1] eqn:Er. intros [= <- <- ->].
-  rewrite cleanup_app_unfold. simpl xt_exits. simpl xt_subs.
-  destruct (ctx_cleanup f ex) as [lc rc] eqn:Ec. apply ctx_cleanup_spec in Ec as (C1 & C2 & C3).
-  assert (rc = None) as ->. { apply C3. intros c _. apply Hf. }
-  destruct (cleanup_regs_full f regs Hf H _ _ Er) as (I1 & I2).
-  destruct (cleanup_regs (cleanup_app f) f regs xs) as [l3 r3]. simpl in *.
-  rewrite exited_app, C1, I2. auto.
-Qed.
-
-Lemma tree_exact f a :
-  no_teardown_failure f ->
-  forall l x, startup_app f a = (l, x, None) ->
-  entered (via_apprunner f a) = xt_started x /\
-  exited (via_apprunner f a) = xt_cleanup_order x /\
-  Permutation (exited (via_apprunner f a)) (entered (via_apprunner f a)).
-Proof.
-  intros Ht l x E.
-  destruct (via_apprunner_parts f a _ _ _ E) as (P1 & P2).
-  destruct (startup_app_spec f a _ _ _ E) as (S1 & _).
-  assert (X : exited (via_apprunner f a) = xt_cleanup_order x).
-  { rewrite P2. cbn [is_none]. rewrite runner_cleanup_ok_exited.
-    destruct (cleanup_app_full f Ht a _ _ E) as (C1 & C2). exact C2. }
-  rewrite X, P1, S1. repeat split; auto. apply xt_orders_perm.
-Qed.
-
-(* when start-up fails the root application's own contexts are still cleaned, in reverse order *)
-Lemma root_cleaned_on_startup_failure f a l x e :
-  startup_app f a = (l, x, Some e) ->
-  exited (via_apprunner f a) = rev (xt_exits x).
-Proof.
-  intros E. destruct (via_apprunner_parts f a _ _ _ E) as (_ & P2). rewrite P2. simpl is_none.
-  rewrite runner_cleanup_unfold.
-  destruct (ctx_cleanup f (xt_exits x)) as [lc rc] eqn:Ec. apply ctx_cleanup_spec in Ec as (C1 & _). auto.
+    apply startup_regs_flat in Er as (-> & _ & _); auto.
+    injection E as <- <- <-. simpl. rewrite !app_nil_r. reflexivity.
 Qed.
 
 (* ---------- statements in the form used by Props/C20.v ---------- *)
@@ -534,38 +509,12 @@ Proof.
   - apply ctx_cleanup_spec in H. apply H.
 Qed.
 
-Lemma exit_order f a l1 x r1 :
-  startup_app f a = (l1, x, r1) ->
-  entered (via_apprunner f a) = xt_started x /\
-  subseq (exited (via_apprunner f a)) (xt_cleanup_order x) /\
-  Permutation (xt_cleanup_order x) (xt_started x).
-Proof.
-  intros E. destruct (via_apprunner_parts f a _ _ _ E) as (P1 & P2).
-  destruct (startup_app_spec f a _ _ _ E) as (S1 & _).
-  rewrite P1, P2, S1. repeat split. apply runner_cleanup_sub. apply xt_orders_perm.
-Qed.
-
 Lemma flat_iff f a : flat a = true ->
   exited (via_apprunner f a) = rev (entered (via_apprunner f a)) /\
-  exited (fst (via_run_app f a)) = rev (entered (fst (via_run_app f a))) /\
-  cleanup_iff_started (via_apprunner f a).
-Proof.
-  intros H1. rewrite entry_points_agree. assert (H := flat_exact f a H1). repeat split; auto.
-  intros c. rewrite H. apply perm_count. symmetry. apply Permutation_rev.
-Qed.
+  exited (fst (via_run_app f a)) = rev (entered (fst (via_run_app f a))).
+Proof. intros H1. rewrite entry_points_agree. assert (H := flat_exact f a H1). auto. Qed.
 
-Lemma tree_iff f a l x :
-  no_teardown_failure f -> startup_app f a = (l, x, None) ->
-  exited (via_apprunner f a) = xt_cleanup_order x /\
-  exited (fst (via_run_app f a)) = xt_cleanup_order x /\
-  cleanup_iff_started (via_apprunner f a).
-Proof.
-  intros H2 E. rewrite entry_points_agree. destruct (tree_exact f a H2 _ _ E) as (T1 & T2 & T3).
-  repeat split; auto. intros c. apply perm_count; auto.
-Qed.
-
-(* witnesses for the two ways in which the unchanged code loses a started context; the third (a raising
-   on_shutdown receiver) is repaired in /repo 9bf51ac and kept as a regression example *)
+(* regression witnesses: the former refutations (repaired in /repo 14e69de, ee73039, 9bf51ac) *)
 Definition w_startup_app : app := App [RSub (App [RCtx 1]); RSu 101].
 Definition w_startup_f : oracle := fails [SStartup 101].
 Definition w_cleanup_app : app := App [RCtx 1; RSub (App [RCtx 2])].
@@ -573,10 +522,14 @@ Definition w_cleanup_f : oracle := fails [SExit 1].
 Definition w_shutdown_app : app := App [RCtx 1; RSd 201].
 Definition w_shutdown_f : oracle := fails [SShutdown 201].
 
-Lemma refuted_startup : ~ cleanup_iff_started (via_apprunner w_startup_f w_startup_app).
-Proof. intro H. specialize (H 1). vm_compute in H. discriminate. Qed.
-Lemma refuted_cleanup : ~ cleanup_iff_started (via_apprunner w_cleanup_f w_cleanup_app).
-Proof. intro H. specialize (H 2). vm_compute in H. discriminate. Qed.
+Lemma regression_startup :
+  via_apprunner w_startup_f w_startup_app =
+  [EEnter 1 true; ESu 101 false; ESetupRaised (ErrStep (SStartup 101)); EExit 1 true].
+Proof. vm_compute. reflexivity. Qed.
+Lemma regression_cleanup :
+  via_apprunner w_cleanup_f w_cleanup_app =
+  [EEnter 1 true; EEnter 2 true; ESite true; EPre; ESrv; EExit 1 false; EExit 2 true; ECleanupRaised (ErrStep (SExit 1))].
+Proof. vm_compute. reflexivity. Qed.
 Lemma regression_shutdown :
   via_apprunner w_shutdown_f w_shutdown_app =
   [EEnter 1 true; ESite true; EPre; ESd 201 false; ESrv; EExit 1 true; ECleanupRaised (ErrStep (SShutdown 201))].
